@@ -626,3 +626,67 @@ func (g *G) CheckRequests(m *rm.Model, n int, subjKinds [3]float64) []Request {
 	}
 	return out
 }
+
+// ListObjectsRequests draws n ListObjects requests (type, relation, subject of all three kinds).
+func (g *G) ListObjectsRequests(m *rm.Model, n int, subjKinds [3]float64) []Request {
+	conc, wild, us := Subjects(m)
+	var trs []struct{ t, r string }
+	for _, t := range m.Types {
+		for _, r := range t.Relations {
+			trs = append(trs, struct{ t, r string }{t.Name, r.Name})
+		}
+	}
+	if len(trs) == 0 {
+		return nil
+	}
+	var out []Request
+	for i := 0; i < n; i++ {
+		tr := Pick(g, trs)
+		var u string
+		x := g.R.Float64() * (subjKinds[0] + subjKinds[1] + subjKinds[2])
+		switch {
+		case x < subjKinds[0] || len(us) == 0:
+			u = Pick(g, conc)
+			if g.Chance(0.7) {
+				u = "user:" + Pick(g, userIDs)
+			}
+		case x < subjKinds[0]+subjKinds[1]:
+			u = Pick(g, wild)
+			if g.Chance(0.6) {
+				u = "user:*"
+			}
+		default:
+			u = Pick(g, us)
+		}
+		out = append(out, Request{Kind: "listobjects", Type: tr.t, Rel: tr.r, User: u, Ctx: g.ReqCtx(m)})
+	}
+	return out
+}
+
+// ListUsersRequests draws n ListUsers requests over every object, relation and user filter.
+func (g *G) ListUsersRequests(m *rm.Model, n int) []Request {
+	var objs []struct{ o, r string }
+	var filters []string
+	for _, t := range m.Types {
+		filters = append(filters, t.Name)
+		for _, r := range t.Relations {
+			filters = append(filters, t.Name+"#"+r.Name)
+			for _, id := range objIDs {
+				objs = append(objs, struct{ o, r string }{t.Name + ":" + id, r.Name})
+			}
+		}
+	}
+	if len(objs) == 0 {
+		return nil
+	}
+	var out []Request
+	for i := 0; i < n; i++ {
+		or := Pick(g, objs)
+		f := Pick(g, filters)
+		if g.Chance(0.5) {
+			f = "user"
+		}
+		out = append(out, Request{Kind: "listusers", Obj: or.o, Rel: or.r, Filter: f, Ctx: g.ReqCtx(m)})
+	}
+	return out
+}
